@@ -50,6 +50,21 @@ def peel_ok(F, R, body=None):
     pops = [(bi, t) for (bi, t) in b.calls() if callee_tag(t.get("callee")) == ("Vec", "pop")]
     encs = [(bi, t) for (bi, t) in b.calls() if callee_tag(t.get("callee")) == ("Huffman", "encode")]
     pushes = [(bi, t) for (bi, t) in b.calls() if callee_tag(t.get("callee")) == ("Vec", "push")]
+    # pushes made in a closure that a pipeline runs over the encoder's output
+    # (`huffman.encode(..).for_each(|byte| bytes.push(..))`): (block of the consuming call, vector)
+    closure_pushes = []
+    from core import all_ctxs as _all_ctxs
+    for c2 in _all_ctxs(F, b)[1:]:
+        top_bi = None
+        cc = c2
+        while cc.parent is not None:
+            top_bi = cc.consumer[0] if cc.consumer else cc.site_bb
+            cc = cc.parent
+        if top_bi is None:
+            continue
+        for (qbi, qt) in c2.body.calls():
+            if callee_tag(qt.get("callee")) == ("Vec", "push") and qt["args"]:
+                closure_pushes.append((top_bi, trees(c2, c2.org.operand(qt["args"][0]))))
     if not pops:
         return True
     if not encs:
@@ -83,6 +98,36 @@ def peel_ok(F, R, body=None):
                     v2 = trees(ctx, ctx.org.operand(qt["args"][0]))
                     if v2 == vec and qbi in reach_strict(b, ebi) and pbi not in reach_strict(b, qbi):
                         c_ok = True
+                for (qbi, v2) in closure_pushes:
+                    if v2 == vec and (qbi == ebi or qbi in reach_strict(b, ebi)) and pbi not in reach_strict(b, qbi):
+                        c_ok = True
+        # (b') the byte is re-presented right-aligned: the encoder is told `bits` valid bits and
+        #      gets `byte >> (8 - bits)`; a shift by `bits` itself hands it the wrong part of the byte
+        from expr import nobb as _nobb, lin as _lin, lin_sub as _lin_sub
+        from r_alloc import walk as _walk
+        for (ebi, et) in encs:
+            if len(et["args"]) < 2 or ebi not in reach_strict(b, pbi):
+                continue
+            init = _nobb(operand_tree(ctx, et["args"][1]))
+            for alt in (init[1] if init[0] == "phi" else (init,)):
+                if not (alt[0] == "agg" and alt[1] == "tuple" and len(alt[2]) == 2):
+                    continue
+                byte_t, bits_t = alt[2]
+                shr = [nd for nd in _walk(byte_t) if nd[0] == "bin" and nd[1] == "Shr" and
+                       any(x[0] == "call" and x[1] == ("Vec", "pop") for x in _walk(nd[2]))]
+                if len(shr) != 1:
+                    continue
+                amount = shr[0][3]
+                want = _lin(("bin", "Sub", ("const", "8"), bits_t))
+                if not _lin_sub(_lin(amount), want):
+                    R.check("R-PEEL", b.label(), True, construct="popped byte right-aligned by 8 - bits",
+                            where="%s:%s" % (b.file, pt["line"]), detail="shift amount %s" % show(amount)[:60])
+                elif not _lin_sub(_lin(amount), _lin(bits_t)):
+                    ok_all = False
+                    R.check("R-PEEL", b.label(), False, construct="popped byte right-aligned by 8 - bits",
+                            where="%s:%s" % (b.file, pt["line"]),
+                            detail="the byte is shifted by the number of valid bits (%s) instead of the number of unused ones: "
+                                   "the encoder re-emits other bits than the earlier item stored there" % show(amount)[:60])
         # every way from the pop to a return goes through that encoder call (no early exit that
         # leaves the peeled byte un-emitted)
         if b_ok:
@@ -295,6 +340,15 @@ def r_freeze(F, R, cat=None, cheapest=False):
             if any(e.tag[1] == "push" and (None, ()) in self_field_targets(e, ctx) for e in effs):
                 continue  # forwarding wrapper
             R.saw(b)
+            f_adt = next((fd["ty"].get("adt") for fd in F.adts[adt]["variants"][0]["fields"] if fd["name"] == first), None)
+            spliced = [p_ for p_ in (b.d.get("inlined") or []) if f_adt and str(p_).startswith(f_adt + "::")]
+            if spliced and not any(e.cls == "append" and e.ctx is ctx and any(f == first for (f, _r) in self_field_targets(e, ctx))
+                                   for e in effs):
+                # the first level is offered the value through a private method of its own type
+                # that the inliner spliced in (no `push` call on the field is left to anchor on)
+                R.undecided_site("R-GUARD", b.label(), "push hands the value to %s through %s (a private method of that type, analysed "
+                                 "in place): the order of the attempts on the two levels is not decided" % (first, spliced[0]))
+                continue
             n_first = n_second = 0
             for e in effs:
                 if e.cls != "append" or e.ctx is not ctx:
@@ -534,6 +588,19 @@ def r_noheap_until_spill(F, R, cat=None):
                               ff[1][1][1] == "is_empty" and ff[1][2] and
                               ff[1][2][0] == ("place", b.key, ("arg", 1), ("f:" + second,)) for ff in facts)
                 after_spill = bool(spill_appends) and e.bb not in b.reachable(0, spill_appends)
+                if not guarded:
+                    # `if !(second.a.is_empty() && second.b.is_empty()) { reserve }`: reached over
+                    # several edges, each of which saw some part of the second level non-empty
+                    from expr import edge_facts, reachable_avoiding
+
+                    def part_nonempty(ff):
+                        return ff[0] == "truthy" and ff[2] is False and ff[1][0] == "call" and ff[1][1][1] == "is_empty" and \
+                            ff[1][2] and ff[1][2][0][0] == "place" and ff[1][2][0][2] == ("arg", 1) and \
+                            tuple(ff[1][2][0][3][:1]) == ("f:" + second,)
+                    good_b = {x for x in b.live_blocks() if any(part_nonempty(ff) for ff in facts_at(ctx, x))}
+                    good_e = {(s_, tgt) for s_ in b.live_blocks() for (tgt, fs) in edge_facts(ctx, s_) if any(part_nonempty(ff) for ff in fs)}
+                    if (good_b or good_e) and e.bb not in reachable_avoiding(b, 0, good_b, good_e):
+                        guarded = True
                 if guarded or after_spill:
                     continue
                 if b.name != "reserve":
@@ -584,6 +651,7 @@ def r_reject_stored(F, R, cat=None):
                 # the branch on this call's result: from its "rejected" edge every path to an exit
                 # must store the same value in the spill list
                 starts = []
+                accepted_edges = set()  # the other edges of the branches on this result: infeasible once rejected
                 for sbi in sorted(b.live_blocks()):
                     st = b.term(sbi)
                     if st["k"] != "switch":
@@ -596,18 +664,148 @@ def r_reject_stored(F, R, cat=None):
                     members = cond[1] if cond[0] == "phi" else (cond,)
                     if not any(m[0] == "call" and m[1] == ("Stride", "push") and m[4] == bi for m in members):
                         continue
+                    rej = set()
                     for (v, tgt) in st["arms"]:
                         if (v == "0") != neg:
                             starts.append(tgt)
+                            rej.add(tgt)
                     if all(v != ("1" if neg else "0") for (v, _) in st["arms"]):
                         starts.append(st["otherwise"])
+                        rej.add(st["otherwise"])
+                    for y in b.succs(sbi):
+                        if y not in rej:
+                            accepted_edges.add((sbi, y))
                 if not starts:
                     ok = False
                     detail = "the result of Stride::push is not branched on here: a rejected value is dropped"
                 else:
-                    ok = all(not b.can_return_avoiding(stores, frm=s0) for s0 in starts)
+                    from expr import reachable_avoiding
+                    ok = all(not any(b.term(x)["k"] == "return" for x in reachable_avoiding(b, s0, stores, accepted_edges))
+                             for s0 in starts)
                     detail = "from the rejected edge every path stores the value in the spill list: %s" % ok
                 R.check("R-GUARD", top.label(), ok,
                         construct="a value the stride rejects is stored in the spill list",
                         where="%s:%s" % (b.file, t["line"]), detail=detail)
-    R.floor("R-GUARD", "Stride::push call sites in IndexOptimized", n, 1)
+    if n == 0:
+        # IndexOptimized does not offer values to its stride through Stride::push (another
+        # protocol between the two -- a private method with its own result type): the hand-over
+        # of rejected values is not something this rule reads
+        R.undecided_site("R-GUARD", "impls::index::IndexOptimized", "no Stride::push call in IndexOptimized: how a value the "
+                         "stride rejects reaches the spill list is not decided")
+
+
+def r_spill_unattempted(F, R, cat=None):
+    """C19: outside `push`, a method of a two-level container that appends to the second (costly)
+    level directly -- a bulk path -- must do so under some test of the first or second level (the
+    second is already in use, or the attempt on the first failed).  Positive evidence only: an
+    append to the second level under no dominating fact that mentions either level."""
+    from core import all_ctxs
+    cat = cat or Catalogue(F)
+    n = 0
+    for (adt, first, second, ib) in two_level(F, cat):
+        for top in F.bodies.values():
+            if top.self_adt != adt or top.in_tests() or top.derived or top.kind == "Closure" or top.name in ("push",):
+                continue
+            if top.name in ("clone", "clone_from", "merge_regions", "with_capacity", "default", "reserve", "reserve_regions",
+                            "reserve_items", "clear", "heap_size"):
+                continue
+            if F.only_inlined(top):
+                continue  # a private helper of push: judged in its callers, under their guards
+            for ctx in all_ctxs(F, top):
+                b = ctx.body
+                for (bi, t) in b.calls():
+                    if classify(t.get("callee")) != "append" or not t["args"] or t["args"][0]["k"] == "const":
+                        continue
+                    recv = operand_tree(ctx, t["args"][0])
+                    if not (recv[0] == "place" and recv[1] == top.key and recv[2] == ("arg", 1) and recv[3][:1] == ("f:" + second,)):
+                        continue
+                    n += 1
+                    facts = facts_at(ctx, bi)
+                    about = [f for f in facts if any(("f:" + first) in show_path(x) or ("f:" + second) in show_path(x)
+                                                     for x in f[1:3] if isinstance(x, tuple))]
+                    R.saw(top)
+                    if not about:
+                        # no single test dominates the append; positive evidence needs a path from
+                        # the entry to the append on which NO branch looks at either level (a
+                        # two-phase bulk path -- fill the first level until it refuses, then hand
+                        # the rest to the second -- tests the levels on every path without any one
+                        # test dominating; whether those tests suffice is value-level)
+                        from expr import edge_facts, reachable_avoiding
+                        tests = set()
+                        for s_ in b.live_blocks():
+                            if b.term(s_)["k"] != "switch":
+                                continue
+                            for (_tgt, fs) in edge_facts(ctx, s_):
+                                if any(("f:" + first) in show_path(x) or ("f:" + second) in show_path(x) or _converts(x)
+                                       for f in fs for x in f[1:3] if isinstance(x, tuple)):
+                                    tests.add(s_)  # (a failed narrowing conversion is "does not fit the first level")
+                        if bi not in reachable_avoiding(b, 0, tests, set()):
+                            R.undecided_site("R-GUARD", top.label(), "%s is appended to at %s:%s under no dominating test of %s or %s, but "
+                                        "every path to it branches on one of them (blocks %s): a multi-phase bulk path; whether "
+                                        "the first level was offered every value first is value-level" %
+                                        (second, b.file, t["line"], first, second, sorted(tests)))
+                            continue
+                    R.check("R-GUARD", top.label(), bool(about),
+                            construct="%s is written only after %s was tried or is already in use" % (second, first),
+                            where="%s:%s" % (b.file, t["line"]),
+                            detail="dominating tests of the two levels: %d" % len(about) + ("" if about else
+                                   ": the costly level is appended to on a path that never looks at either level, the cheap one is never offered the value"))
+    R.info("R-GUARD: %d direct appends to a second level outside push inspected" % n)
+
+
+def _converts(t):
+    """the tree contains a narrowing conversion (`try_into` / `try_from`)"""
+    if isinstance(t, tuple):
+        if t and t[0] == "call" and len(t) > 1 and isinstance(t[1], tuple) and len(t[1]) > 1 and t[1][1] in ("try_into", "try_from"):
+            return True
+        return any(_converts(y) for y in t)
+    return False
+
+
+def show_path(t):
+    out = []
+
+    def rec(x):
+        if isinstance(x, tuple):
+            if x and x[0] == "place" and len(x) >= 4:
+                out.extend(x[3])
+            for y in x:
+                rec(y)
+    rec(t)
+    return out
+
+
+def r_reserve_level(F, R, cat=None):
+    """`reserve(n)` of a two-level container whose first level owns storage announces pushes: it
+    must reach the level the next push writes to -- the first level, unless a dominating fact says
+    the second is already in use.  A reserve that only ever grows the second level leaves the
+    level in use unreserved."""
+    cat = cat or Catalogue(F)
+    n = 0
+    for (adt, first, second, ib) in two_level(F, cat):
+        fty = next((f["ty"]["s"] for f in F.adts[adt]["variants"][0]["fields"] if f["name"] == first), "")
+        if "Stride" in fty:
+            continue  # the first level is inline: nothing to reserve
+        for b in [x for x in F.bodies.values() if x.self_adt == adt and x.name == "reserve" and x.trait is None and not x.in_tests()]:
+            ctx = Ctx(b)
+            good = set()
+            for (bi, t) in b.calls():
+                if classify(t.get("callee")) != "reserve" or not t["args"]:
+                    continue
+                recv = operand_tree(ctx, t["args"][0])
+                if recv[0] != "place" or recv[2] != ("arg", 1) or not recv[3]:
+                    continue
+                if recv[3][0] == "f:" + first:
+                    good.add(bi)
+                elif recv[3][0] == "f:" + second:
+                    in_use = any(f[0] == "truthy" and f[2] is False and f[1][0] == "call" and f[1][1][1] == "is_empty" and
+                                 f[1][2] and f[1][2][0] == ("place", b.key, ("arg", 1), ("f:" + second,)) for f in facts_at(ctx, bi))
+                    if in_use:
+                        good.add(bi)
+            n += 1
+            R.saw(b)
+            ok = bool(good) and not b.can_return_avoiding(good)
+            R.check("R-COVER(reserve_regions)", b.label(), ok, construct="reserve reaches the level the next push writes to",
+                    where=b.where(), detail="reserves on %s, or on %s where it is known to be in use, at blocks %s" % (first, second, sorted(good)) +
+                    ("" if ok else "; some path reserves neither: the level that receives the pushes grows by reallocation"))
+    R.floor("R-COVER(reserve_regions)", "reserve of two-level containers with a storage-owning first level", n, 1)
